@@ -1,13 +1,9 @@
 # -*- coding: utf-8 -*-
 
-from .base import wrap
 from .check import ensure_futures
+from .zip import f_zip
+from .map import f_map
 from ..metrics import track_future
-
-
-# for wrapping arguments.
-# This value means an argument came from *args rather than **kwargs
-ARGS = object()
 
 
 @ensure_futures
@@ -31,43 +27,16 @@ def f_apply(future_fn, *future_args, **future_kwargs):
 
     .. versionadded:: 1.19.0
     """
-    wrapped_args = _wrap_args(*future_args, **future_kwargs)
-    return track_future(_wrapped_f_apply(future_fn, wrapped_args), type="apply")
+    # Resolve the function and all of its arguments together, then apply.
+    # (Applying one argument at a time, one nested future per argument, ran
+    # out of stack for calls with more than a few dozen arguments.)
+    keys = list(future_kwargs)
+    nargs = len(future_args)
+    inputs = [future_fn] + list(future_args) + [future_kwargs[key] for key in keys]
 
+    def call(values):
+        values = tuple(values)
+        kwargs = dict(zip(keys, values[1 + nargs :]))
+        return values[0](*values[1 : 1 + nargs], **kwargs)
 
-def _wrap_args(*future_args, **future_kwargs):
-    out = list()
-    for arg in future_args:
-        out.append((ARGS, arg))
-    for key, value in future_kwargs.items():
-        out.append((key, value))
-    return out
-
-
-def _wrapped_f_apply(future_fn, future_args):
-    if not future_args:
-        return wrap(future_fn).with_map(lambda fn: fn())()
-
-    future_key_and_x = future_args[0]
-    (key, future_x) = future_key_and_x
-    future_args = future_args[1:]
-
-    # future_fn takes multiple arguments.
-    # Create a new equivalent future function which takes one less arg
-    def fn_runner(fn, x):
-        def out(*args, **kwargs):
-            args = list(args)
-            kwargs = kwargs.copy()
-            if key is ARGS:
-                args.insert(0, x)
-            else:
-                kwargs[key] = x
-            return fn(*args, **kwargs)
-
-        return out
-
-    next_future_fn = wrap(future_x).with_flat_map(
-        lambda x: wrap(future_fn).with_map(lambda fn: fn_runner(fn, x))()
-    )()
-
-    return _wrapped_f_apply(next_future_fn, future_args)
+    return track_future(f_map(f_zip(*inputs), call), type="apply")
